@@ -50,6 +50,12 @@ var zzOrder int
 func VerifAtomicFormat() {
 	nfiles := v.Param("files")
 	names := []string{"a.knut", "b.knut"}[:nfiles]
+	long := v.Param("longname") == 1
+	if long {
+		// a name of 253 bytes: the temporary sibling atomic.WriteFile creates cannot be named,
+		// so writing this (and only this) file fails
+		names[0] = strings.Repeat("a", 248) + ".knut"
+	}
 	var olds, news []string
 	var parses []bool
 	var paths []string
@@ -83,7 +89,8 @@ func VerifAtomicFormat() {
 	cmd.SetContext(context.Background())
 	var err error
 	v.FSArm(op, k, crash)
-	crashed, _ := v.Try(func() { err = formatRunner{}.execute(cmd, paths) })
+	var fr formatRunner
+	crashed, _ := v.Try(func() { err = fr.execute(cmd, paths) })
 	fired := op >= 0 && op < v.FSOps()
 	v.FSArm(-1, 0, false)
 	for i, n := range names {
@@ -97,7 +104,7 @@ func VerifAtomicFormat() {
 			}
 		}
 		if !fired && !crashed {
-			if parses[i] {
+			if parses[i] && !(long && i == 0) {
 				v.Assert(got == news[i], "without-a-fault-every-parseable-file-is-formatted")
 			}
 		}
@@ -107,7 +114,11 @@ func VerifAtomicFormat() {
 		for _, p := range parses {
 			allParse = allParse && p
 		}
-		v.Assert((err == nil) == allParse, "error-iff-some-file-does-not-parse")
+		if long && parses[0] {
+			v.Assert(err != nil, "failed-write-is-reported")
+		} else {
+			v.Assert((err == nil) == allParse, "error-iff-some-file-does-not-parse")
+		}
 		v.Assert(v.FSOthers() == nfiles || !v.Symbolic(), "no-stray-temporary-files")
 	}
 	v.Observe("fired", fired)
@@ -150,6 +161,9 @@ func VerifAtomicInfer() {
 	tr := zzTrainings[v.Param("training")]
 	old := zzTargets[v.Param("target")]
 	v.FSWrite("t.knut", old)
+	if v.Param("symlink") == 1 {
+		v.FSSymlink("t.knut") // the journal is named through a symbolic link
+	}
 	want, werr := zzInferFS(tr.text, "t.knut", false)
 	v.Assume(werr == nil)
 	got0, _ := v.FSRead("t.knut")
